@@ -1,0 +1,33 @@
+//go:build verif
+
+package crlrepository
+
+// Verification-only accessors for the concurrency checks (build tag verif): let the harness hold one of
+// the repository's locks while it calls the public operations, to observe which operations wait for it.
+
+// VerifHoldRepoLock takes the repository map lock (write or read mode) and returns the function releasing it.
+func (R *Repository) VerifHoldRepoLock(write bool) func() {
+	if write {
+		R.crlRepositoryLock.Lock()
+		return R.crlRepositoryLock.Unlock
+	}
+	R.crlRepositoryLock.RLock()
+	return R.crlRepositoryLock.RUnlock
+}
+
+// VerifHoldEntryLock takes the lock of the entry with the given identifier; ok is false if there is no such entry.
+func (R *Repository) VerifHoldEntryLock(identifier string, write bool) (release func(), ok bool) {
+	entry := R.getEntrySync(identifier)
+	if entry == nil {
+		return func() {}, false
+	}
+	if write {
+		entry.entryLock.Lock()
+		return entry.entryLock.Unlock, true
+	}
+	entry.entryLock.RLock()
+	return entry.entryLock.RUnlock, true
+}
+
+// VerifIdentifiers lists the identifiers currently in the repository.
+func (R *Repository) VerifIdentifiers() []string { return R.getCurrentIdentifiers() }
